@@ -418,7 +418,7 @@ type event =
 | EvAlloc of z * z
 | EvRealloc of z * z * z
 | EvDealloc of z * z
-| EvAllocFail of z * z
+| EvAllocFail of z * z * ((z * z) * z) option
 | EvClone of elem * elem
 | EvDrop of elem
 | EvCall of string * elem list
